@@ -64,7 +64,7 @@ ASSUMPTIONS = [
     "quantifier: variable names are those of the parser's name table (A..Z without P/Q, Pi, π, with optional digit or _digit); "
     "a user-chosen name outside the table (e.g. 'AA') cannot be parsed by design of parse_y0 and is outside the property; the one such "
     "name the LIBRARY itself produces (TARGET_DOMAIN = Population('pi*'), the tag of transport estimands) is inside: the fixed code "
-    "(6bf1c43) prints that population as the DSL constant TARGET_DOMAIN, which the parser's table now knows; the model has the "
+    "(ee7cb58) prints that population as the DSL constant TARGET_DOMAIN, which the parser's table now knows; the model has the "
     "constant as a keyword token and 30% of the generated PP[...] terms use it. A variable named 'pi*' anywhere else (a child, a "
     "subscript) is a user-chosen name outside the table",
     "quantifier: each distribution, each subscript list, each Sum range and each Q-(co)domain mentions a name at most once "
